@@ -24,16 +24,19 @@ Definition wang (c0 : N) : N :=
 Definition score_h (kh : N) (node : bytes) : N := wang (xor64 kh (fnv1a node)).
 Definition score (key node : bytes) : N := score_h (fnv1a key) node.
 
-(* rendezvousHash: first strict maximum starting from ("", 0); short-cuts for 0 and 1 nodes *)
-Definition best_step (kh : N) (acc : bytes * N) (node : bytes) : bytes * N :=
-  let h := score_h kh node in if snd acc <? h then (node, h) else acc.
-
-Definition owner (key : bytes) (nodes : list bytes) : bytes :=
+(* rendezvousHash: first strict maximum starting from ("", 0); short-cuts for 0 and 1 nodes.
+   The fold is written over an arbitrary score function [sc] so that the zero-score edge can be
+   stated exactly (Props/C17.v); the code's instance is [sc := score_h (fnv1a key)]. *)
+Definition best_step_g (sc : bytes -> N) (acc : bytes * N) (node : bytes) : bytes * N :=
+  let h := sc node in if snd acc <? h then (node, h) else acc.
+Definition owner_g (sc : bytes -> N) (nodes : list bytes) : bytes :=
   match nodes with
   | [] => []
   | [n] => n
-  | _ => fst (fold_left (best_step (fnv1a key)) nodes ([], 0))
+  | _ => fst (fold_left (best_step_g sc) nodes ([], 0))
   end.
+Definition best_step (kh : N) : bytes * N -> bytes -> bytes * N := best_step_g (score_h kh).
+Definition owner (key : bytes) (nodes : list bytes) : bytes := owner_g (score_h (fnv1a key)) nodes.
 
 (* sort.Strings: any sorting algorithm gives the same list (the order is total and antisymmetric);
    the Model uses insertion sort *)
@@ -49,14 +52,14 @@ Definition sort_s (l : list bytes) : list bytes := fold_right insert_s [] l.
 Fixpoint insert_r (x : N * bytes) (l : list (N * bytes)) : list (N * bytes) :=
   match l with
   | [] => [x]
-  | y :: tl => if fst y <? fst x then x :: l else y :: insert_r x tl
+  | y :: tl => if fst y <=? fst x then x :: l else y :: insert_r x tl
   end.
-Definition ranked (key : bytes) (nodes : list bytes) : list bytes :=
+Definition ranked_g (sc : bytes -> N) (nodes : list bytes) : list bytes :=
   match nodes with
   | [] => [] | [n] => [n]
-  | _ => let kh := fnv1a key in
-         map snd (fold_right insert_r [] (map (fun n => (score_h kh n, n)) nodes))
+  | _ => map snd (fold_right insert_r [] (map (fun n => (sc n, n)) nodes))
   end.
+Definition ranked (key : bytes) (nodes : list bytes) : list bytes := ranked_g (score_h (fnv1a key)) nodes.
 
 Definition mem_s (x : bytes) (l : list bytes) : bool := existsb (bytes_eqb x) l.
 
@@ -76,8 +79,28 @@ Fixpoint first_healthy (un : list bytes) (r : list bytes) : option bytes :=
 Definition healthy_owner (self : bytes) (unhealthy : list bytes) (key : bytes) (nodes : list bytes) : bytes :=
   match first_eligible self unhealthy (ranked key nodes) with Some n => n | None => self end.
 
-(* ---- stateful part: several nodes, each with its own configured peer list ---- *)
-Record node := { self : bytes; cfg : list bytes; peers : list bytes; unhealthy : list bytes }.
+(* ---- health bookkeeping: checkPeer's per-peer record (healthy, consecutiveFailures) ---- *)
+Definition health_threshold : N := 3.
+Definition chk (h : bool * N) (ok : bool) : bool * N :=
+  if ok then (true, 0)
+  else let f := snd h + 1 in (if fst h && (health_threshold <=? f) then false else fst h, f).
+
+(* association list peer -> consecutive failures (absent = 0, as a fresh map entry) *)
+Fixpoint aget (l : list (bytes * N)) (p : bytes) : N :=
+  match l with [] => 0 | (q, v) :: tl => if bytes_eqb q p then v else aget tl p end.
+Definition aset (l : list (bytes * N)) (p : bytes) (v : N) : list (bytes * N) :=
+  (p, v) :: filter (fun e => negb (bytes_eqb (fst e) p)) l.
+
+(* ---- stateful part: several nodes, each with its own configured peer list ----
+   unhealthy/fails together are peerHealthMap (a peer is healthy iff it is not in [unhealthy]; a
+   missing map entry behaves as (healthy, 0) everywhere in the code);
+   holds = the subscriber ids in this node's LocalPool.allocations;
+   cfg = what p.peers (the address list getPeerAddr searches) currently shows; alias = p.peerNodes still
+   shares its backing array with p.peers (Go slice aliasing: NewPeerPool keeps cfg.Peers for both when
+   the node id is already in it; the caller's slice is assumed to have cap = len, as every literal,
+   make() and the drivers give) *)
+Record node := { self : bytes; cfg : list bytes; peers : list bytes; unhealthy : list bytes;
+                 fails : list (bytes * N); holds : list bytes; alias : bool }.
 
 Definition new_node (id : bytes) (cfg0 : list bytes) : node :=
   (* p.peers aliases cfg.Peers: when the node id is already in the list nothing is appended and
@@ -85,13 +108,45 @@ Definition new_node (id : bytes) (cfg0 : list bytes) : node :=
      reallocates (len = cap) and the configured order survives *)
   {| self := id; cfg := if mem_s id cfg0 then sort_s cfg0 else cfg0;
      peers := sort_s (if mem_s id cfg0 then cfg0 else cfg0 ++ [id]);
-     unhealthy := [] |}.
+     unhealthy := []; fails := []; holds := []; alias := mem_s id cfg0 |}.
+
+Definition set_peers (nd : node) (l c : list bytes) (a : bool) : node :=
+  {| self := self nd; cfg := c; peers := l; unhealthy := unhealthy nd; fails := fails nd; holds := holds nd; alias := a |}.
+Definition set_health (nd : node) (un : list bytes) (fl : list (bytes * N)) : node :=
+  {| self := self nd; cfg := cfg nd; peers := peers nd; unhealthy := un; fails := fl; holds := holds nd; alias := alias nd |}.
+Definition set_holds (nd : node) (h : list bytes) : node :=
+  {| self := self nd; cfg := cfg nd; peers := peers nd; unhealthy := unhealthy nd; fails := fails nd; holds := h; alias := alias nd |}.
+
+(* AddPeer: append + sort.Strings on p.peerNodes. While the backing array is shared and has room
+   (after a RemovePeer) the append and the sort happen inside p.peers as well; without room append
+   reallocates and the sharing ends. *)
+Definition add_peer_node (p : bytes) (nd : node) : node :=
+  if mem_s p (peers nd) then nd
+  else let l' := sort_s (peers nd ++ [p]) in
+       if alias nd then
+         if Nat.ltb (length (peers nd)) (length (cfg nd))
+         then set_peers nd l' (l' ++ skipn (S (length (peers nd))) (cfg nd)) true
+         else set_peers nd l' (cfg nd) false
+       else set_peers nd l' (cfg nd) false.
 
 Fixpoint remove_first (x : bytes) (l : list bytes) : list bytes :=
   match l with
   | [] => []
   | y :: tl => if bytes_eqb y x then tl else y :: remove_first x tl
   end.
+
+(* RemovePeer: append(a[:i], a[i+1:]...) shifts the tail left inside the backing array; the slot
+   after the new end keeps its old value and stays visible through p.peers while shared *)
+Definition remove_peer_node (p : bytes) (nd : node) : node :=
+  let l' := remove_first p (peers nd) in
+  if alias nd && mem_s p (peers nd)
+  then set_peers nd l' (l' ++ skipn (length (peers nd) - 1) (cfg nd)) true
+  else set_peers nd l' (cfg nd) (alias nd).
+
+Definition without (p : bytes) (l : list bytes) : list bytes := filter (fun q => negb (bytes_eqb q p)) l.
+(* the unhealthy set is kept as a sorted duplicate-free list (the Go map has no order to mirror) *)
+Definition mark (un : list bytes) (p : bytes) (healthy : bool) : list bytes :=
+  if healthy then without p un else sort_s (p :: without p un).
 
 Inductive op :=
 | AddPeer (n : N) (p : bytes)
@@ -101,14 +156,23 @@ Inductive op :=
 | IsLocal (n : N) (k : bytes)
 | Ranked (n : N) (k : bytes)
 | HealthyOwner (n : N) (k : bytes)
-| Alloc (n : N) (k : bytes).      (* PeerPool.Allocate entering at node n; observable: NodeID that served it *)
+| Alloc (n : N) (k : bytes)       (* PeerPool.Allocate entering at node n; observable: NodeID and SubscriberID of the response *)
+| Release (n : N) (k : bytes)     (* PeerPool.Release entering at node n; observable: nil / error *)
+| Get (n : N) (k : bytes)         (* PeerPool.Get at node n; observable: found *)
+| Holds (k : bytes)               (* which nodes' LocalPool holds k (VerifLocalHolds on every node) *)
+| CheckPeer (n : N) (p : bytes) (up : bool).
+   (* one real checkPeer(p) at node n; [up] = the scripted transport lets the status request through
+      to the peer's handler (false: transport error or HTTP 500); observable: the peer's record *)
 
 Inductive out :=
 | ONone
 | OStr (s : bytes)
 | OBool (b : bool)
 | OList (l : list bytes)
-| OErr.
+| OErr
+| OHold (l : list N)
+| OHealth (h : bool) (f : N)
+| OServed (node : bytes) (sid : bytes).   (* Allocate: NodeID and SubscriberID of the response *)
 
 Fixpoint list_bytes_eqb (a b : list bytes) : bool :=
   match a, b with
@@ -124,6 +188,9 @@ Definition out_eqb (a b : out) : bool :=
   | OBool x, OBool y => Bool.eqb x y
   | OList x, OList y => list_bytes_eqb x y
   | OErr, OErr => true
+  | OHold x, OHold y => bytes_eqb x y
+  | OHealth h f, OHealth h' f' => Bool.eqb h h' && (f =? f')
+  | OServed a x, OServed b y => bytes_eqb a b && bytes_eqb x y
   | _, _ => false
   end.
 
@@ -133,7 +200,7 @@ Definition upd (s : state) (n : N) (f : node -> node) : state :=
   map (fun p => if fst p =? n then f (snd p) else snd p) (combine (map N.of_nat (seq 0 (length s))) s).
 
 Definition getn (s : state) (n : N) : node :=
-  nth (N.to_nat n) s {| self := []; cfg := []; peers := []; unhealthy := [] |}.
+  nth (N.to_nat n) s {| self := []; cfg := []; peers := []; unhealthy := []; fails := []; holds := []; alias := false |}.
 
 (* getPeerAddr: the configured (unsorted, never updated) peer list decides the address *)
 Definition peer_addr (nd : node) (o : bytes) : bytes :=
@@ -142,40 +209,157 @@ Definition peer_addr (nd : node) (o : bytes) : bytes :=
   | None => o
   end.
 
+(* index of the first node whose id is [id]: the process that answers at that address *)
+Fixpoint find_idx (i : N) (s : list node) (id : bytes) : option N :=
+  match s with
+  | [] => None
+  | m :: tl => if bytes_eqb (self m) id then Some i else find_idx (i + 1) tl id
+  end.
+
+(* Is [a] usable as the host of "http://a/pool/..." ?  Exact for the names the drivers use:
+   letters, digits, '.', '-' and an optional ":<digits>" port (non-empty).  Everything else is
+   treated as a request that cannot be sent (see docs/C17.md, limits). *)
+Definition is_digit (b : N) : bool := (48 <=? b) && (b <=? 57).
+Definition is_alnum (b : N) : bool :=
+  is_digit b || ((65 <=? b) && (b <=? 90)) || ((97 <=? b) && (b <=? 122)).
+Fixpoint host_ok_aux (l : bytes) : bool :=
+  match l with
+  | [] => true
+  | b :: tl => if b =? 58 then (match tl with [] => false | _ => forallb is_digit tl end)
+               else (is_alnum b || (b =? 45) || (b =? 46)) && host_ok_aux tl
+  end.
+Definition host_ok (l : bytes) : bool := match l with [] => false | _ => host_ok_aux l end.
+
+(* getHealthyOwner at node nd plus ghost marker 1701 (K17a): this node is in the health vector's
+   unhealthy set, yet elects itself ("local node always eligible") *)
+Definition howner_mk (nd : node) (k : bytes) : bytes * list N :=
+  let r := healthy_owner (self nd) (unhealthy nd) k (peers nd) in
+  (r, if mem_s (self nd) (unhealthy nd) && bytes_eqb r (self nd) then [1701] else []).
+
+(* where a request entering at node n for owner r is executed: the node itself, or the process
+   listening at getPeerAddr(r) (which acts on its own LocalPool without re-checking ownership);
+   ghost marker 1702 (K17b): the address lookup conflated owner X with a configured peer "X:8081" *)
+Definition target (s : state) (n : N) (r : bytes) : option N * list N :=
+  let nd := getn s n in
+  if bytes_eqb r (self nd) then (Some n, [])
+  else let a := peer_addr nd r in
+       if negb (host_ok a) then (None, [])
+       else match find_idx 0 s a with
+            | Some j => (Some j, if bytes_eqb (self (getn s j)) r then [] else [1702])
+            | None => (None, [])
+            end.
+
+(* the subscriber id as the release handler of a peer sees it: forwardRelease path-escapes the id,
+   the handler reads the decoded path.  Still not deliverable: "" (400), "." and ".." (the mux
+   redirects to the cleaned path, the client follows with GET, the handler answers 405/404). *)
+Definition url_id (k : bytes) : option bytes :=
+  match k with
+  | [] => None
+  | [46] => None
+  | [46; 46] => None
+  | _ => Some k
+  end.
+
+(* What a subscriber id becomes when it travels in the JSON body of a forwarded Allocate:
+   encoding/json replaces every byte that does not start a valid UTF-8 sequence (utf8.DecodeRune
+   = RuneError, size 1) by U+FFFD; the peer decodes EF BF BD.  Valid UTF-8 survives unchanged. *)
+Definition in_rng (lo hi b : N) : bool := (lo <=? b) && (b <=? hi).
+Definition ufffd : bytes := [239; 191; 189].
+(* for a lead byte: number of continuation bytes (0 = ASCII, 9 = invalid) and the range of the first one *)
+Definition lead (b : N) : N * N * N :=
+  if b <? 128 then (0, 0, 0)
+  else if in_rng 194 223 b then (1, 128, 191)
+  else if b =? 224 then (2, 160, 191)
+  else if in_rng 225 236 b then (2, 128, 191)
+  else if b =? 237 then (2, 128, 159)
+  else if in_rng 238 239 b then (2, 128, 191)
+  else if b =? 240 then (3, 144, 191)
+  else if in_rng 241 243 b then (3, 128, 191)
+  else if b =? 244 then (3, 128, 143)
+  else (9, 0, 0).
+Fixpoint utf8_coerce (l : bytes) : bytes :=
+  match l with
+  | [] => []
+  | b0 :: tl =>
+      let '(n, lo, hi) := lead b0 in
+      if n =? 0 then b0 :: utf8_coerce tl
+      else if n =? 1 then
+        match tl with
+        | b1 :: t1 => if in_rng lo hi b1 then b0 :: b1 :: utf8_coerce t1 else ufffd ++ utf8_coerce tl
+        | _ => ufffd ++ utf8_coerce tl
+        end
+      else if n =? 2 then
+        match tl with
+        | b1 :: (b2 :: t2) as t1 =>
+            if in_rng lo hi b1 && in_rng 128 191 b2 then b0 :: b1 :: b2 :: utf8_coerce t2 else ufffd ++ utf8_coerce tl
+        | _ => ufffd ++ utf8_coerce tl
+        end
+      else if n =? 3 then
+        match tl with
+        | b1 :: (b2 :: (b3 :: t3)) =>
+            if in_rng lo hi b1 && in_rng 128 191 b2 && in_rng 128 191 b3
+            then b0 :: b1 :: b2 :: b3 :: utf8_coerce t3 else ufffd ++ utf8_coerce tl
+        | _ => ufffd ++ utf8_coerce tl
+        end
+      else ufffd ++ utf8_coerce tl
+  end.
+
+Definition add_hold (k : bytes) (nd : node) : node :=
+  if mem_s k (holds nd) then nd else set_holds nd (k :: holds nd).
+Definition del_hold (k : bytes) (nd : node) : node := set_holds nd (without k (holds nd)).
+
+Fixpoint holders (i : N) (s : list node) (k : bytes) : list N :=
+  match s with
+  | [] => []
+  | m :: tl => if mem_s k (holds m) then i :: holders (i + 1) tl k else holders (i + 1) tl k
+  end.
+
 Definition step (s : state) (o : op) : state * out * list N :=
   match o with
   | AddPeer n p =>
-      (upd s n (fun nd => if mem_s p (peers nd) then nd
-                          else {| self := self nd; cfg := cfg nd; peers := sort_s (peers nd ++ [p]); unhealthy := unhealthy nd |}),
-       ONone, [])
-  | RemovePeer n p =>
-      (upd s n (fun nd => {| self := self nd; cfg := cfg nd; peers := remove_first p (peers nd); unhealthy := unhealthy nd |}),
-       ONone, [])
+      (upd s n (add_peer_node p), ONone, [])
+  | RemovePeer n p => (upd s n (remove_peer_node p), ONone, [])
   | SetHealth n p h =>
-      (upd s n (fun nd => {| self := self nd; cfg := cfg nd; peers := peers nd;
-                             unhealthy := if h then filter (fun q => negb (bytes_eqb q p)) (unhealthy nd)
-                                          else p :: filter (fun q => negb (bytes_eqb q p)) (unhealthy nd) |}),
+      (* harness hook VerifSetPeerHealth: sets the flag; a healthy mark also clears the counter *)
+      (upd s n (fun nd => set_health nd (mark (unhealthy nd) p h) (if h then aset (fails nd) p 0 else fails nd)),
        ONone, [])
   | GetOwner n k => (s, OStr (owner k (peers (getn s n))), [])
   | IsLocal n k => let nd := getn s n in (s, OBool (bytes_eqb (owner k (peers nd)) (self nd)), [])
   | Ranked n k => (s, OList (ranked k (peers (getn s n))), [])
-  | HealthyOwner n k =>
-      let nd := getn s n in
-      let r := healthy_owner (self nd) (unhealthy nd) k (peers nd) in
-      (* ghost marker 1701 (D17a): this node is in the health vector's unhealthy set, yet elects
-         itself where a node without the self-preference would elect another peer *)
-      let r0 := match first_healthy (unhealthy nd) (ranked k (peers nd)) with Some x => x | None => self nd end in
-      (s, OStr r, if mem_s (self nd) (unhealthy nd) && negb (bytes_eqb r r0) then [1701] else [])
+  | HealthyOwner n k => let '(r, mk) := howner_mk (getn s n) k in (s, OStr r, mk)
   | Alloc n k =>
+      let '(r, mk) := howner_mk (getn s n) k in
+      (* forwarded requests carry the id in JSON; ghost marker 1704 (K17d): the peer allocates, and
+         answers for, a different id *)
+      let k' := if bytes_eqb r (self (getn s n)) then k else utf8_coerce k in
+      match target s n r with
+      | (Some j, mk2) => (upd s j (add_hold k'), OServed (self (getn s j)) k',
+                          (if bytes_eqb k' k then [] else [1704]) ++ mk2 ++ mk)
+      | (None, _) => (s, OErr, mk)
+      end
+  | Release n k =>
+      let '(r, mk) := howner_mk (getn s n) k in
+      if bytes_eqb r (self (getn s n)) then (upd s n (del_hold k), ONone, mk)
+      else match target s n r, url_id k with
+           | (Some j, mk2), Some k' => (upd s j (del_hold k'), ONone, mk2 ++ mk)
+           | _, _ => (s, OErr, mk)
+           end
+  | Get n k =>
+      (* Get consults the plain rendezvous owner (not the health view) and never forwards *)
       let nd := getn s n in
-      let r := healthy_owner (self nd) (unhealthy nd) k (peers nd) in
-      let r0 := match first_healthy (unhealthy nd) (ranked k (peers nd)) with Some x => x | None => self nd end in
-      let mk := if mem_s (self nd) (unhealthy nd) && negb (bytes_eqb r r0) then [1701] else [] in
-      if bytes_eqb r (self nd) then (s, OStr r, mk)
-      else (* forwarded: the addressed peer allocates locally without re-checking ownership *)
-        match find (fun m => bytes_eqb (self m) (peer_addr nd r)) s with
-        | Some m => (* ghost marker 1702 (D17b): address lookup conflated owner X with a peer "X:8081" *)
-            (s, OStr (self m), if bytes_eqb (self m) r then mk else 1702 :: mk)
-        | None => (s, OErr, mk)
-        end
+      (s, OBool (bytes_eqb (owner k (peers nd)) (self nd) && mem_s k (holds nd)), [])
+  | Holds k => (s, OHold (holders 0 s k), [])
+  | CheckPeer n p up =>
+      let nd := getn s n in
+      let a := peer_addr nd p in
+      if negb (host_ok a) then
+        (* no request can be made (empty address / unparsable URL): checkPeer returns before it touches
+           the map; [mark] with the current status only re-normalises the list representation *)
+        let h0 := negb (mem_s p (unhealthy nd)) in
+        (upd s n (fun nd => set_health nd (mark (unhealthy nd) p h0) (fails nd)), OHealth h0 (aget (fails nd) p), [])
+      else
+        let ok := up && match find_idx 0 s a with Some _ => true | None => false end in
+        let h' := chk (negb (mem_s p (unhealthy nd)), aget (fails nd) p) ok in
+        (upd s n (fun nd => set_health nd (mark (unhealthy nd) p (fst h')) (aset (fails nd) p (snd h'))),
+         OHealth (fst h') (snd h'), [])
   end.
